@@ -150,6 +150,11 @@ def funnel(ctx, fn, filter_name, raw_sources, raw_arg_index, rule="K6-result"):
 
 
 def run(ctx):
+    _run_main(ctx)
+    search_profile_fields(ctx)
+
+
+def _run_main(ctx):
     F = ctx.facts
     ctx.explanation = ("Read-path funnel: search/search_ext/exists return only access-filtered data, raw backend reads and the reduced-entry "
                        "marker have one producer each, the search decision tables fail closed, every externally fed event hides "
@@ -562,3 +567,16 @@ def run(ctx):
                 ctx.violation("K1-handlers", fn["fn"], f"reads-via:{short(c, 1)}", f"SCIM read path {nm} reads entries through {short(c)} (un-reduced)",
                               file=fn["file"], line=ln)
     ctx.exhaustive = True
+
+
+# ---------------------------------------------------------------------------------------------------------------------
+# The readable attribute set of a search grant is what the parser makes of the stored profile (rules/lib/x_fields.py).
+
+def search_profile_fields(ctx):
+    from .lib.x_fields import check_field_sources
+    P = "kanidmd_lib::server::access::profiles::"
+    n = check_field_sources(ctx, LIB, "K5-profile-fields", [
+        (P + "AccessControlSearch::try_from", P + "AccessControlSearch", {"attrs": {"AcpSearchAttr"}}),
+        (P + "AccessControlProfile::try_from", P + "AccessControlProfile", {"receiver": {"AcpReceiverGroup"}, "target": {"AcpTargetScope"}}),
+    ], "a search is then answered from a grant the administrator did not store", prefix="Acp")
+    ctx.floor("K5-profile-fields", "search profile fields traced to their attributes", n, 3)
